@@ -20,7 +20,14 @@
    plain, pipelines, tested positions, return/exit, unset variables, subshells, called
    functions, command substitutions) - C19_body_strict_mode ties bash's way of running a
    body (the model's interpreter) to the Spec's reading of strict mode, the other three
-   carry the dispatch theorems over to such handlers. *)
+   carry the dispatch theorems over to such handlers.
+
+   "`hook::run --config` prints the configuration" is read as a statement about the BYTES on
+   stdout (last part of this file): for every byte string that __config__ writes, that byte
+   string is the stdout of the run (C19_config_printed_verbatim), the extended predicate PC
+   (P + "printed verbatim" + "a failing __config__ is a failing run") holds of the model
+   (C19_config_meets_spec_partial, C19_config_mode_meets_spec) and accepts nothing else
+   (C19_spec_demands_verbatim, C19_spec_demands_failure). *)
 From Coq Require Import String.
 From Verif Require Import Common C19_Model C19_Spec C19_Proofs.
 
@@ -193,4 +200,79 @@ Proof.
   split; [vm_compute; reflexivity|]. split; [vm_compute; reflexivity|]. split.
   { intros x [<-|[<-|[]]]; reflexivity. }
   repeat split; vm_compute; reflexivity.
+Qed.
+
+(* ---------- `hook::run --config` prints the configuration: the bytes on stdout ---------- *)
+
+(* For EVERY byte string [text] that __config__ writes (a leading `---`, `%`, backslash
+   sequences, quotes, NUL, no final newline or several, nothing at all, any length): the
+   stdout of `hook::run --config` is that byte string; __config__ ran once, nothing else ran;
+   the status of the run is the strict-mode status of __config__ - 0 exactly when it succeeds.
+   Contexts, other handlers and further arguments have no influence. *)
+Theorem C19_config_printed_verbatim : forall args defined bodies cs (text : bytes),
+  is_config args = true -> In config_name defined ->
+  let o := runC args defined bodies cs text in
+  oc_stdout o = text /\
+  o_trace (ob_obs (oc_run o)) = [config_entry] /\
+  o_status (ob_obs (oc_run o)) = strict_status (bodies config_name 0%N).
+Proof. exact config_verbatim. Qed.
+Print Assumptions C19_config_printed_verbatim.
+
+(* The whole predicate - dispatch clauses, strict mode, and "printed verbatim / the failure
+   of __config__ is the failure of the run" - holds of the model for all inputs outside the
+   trigger of F20, whatever the text; in --config mode without any hypothesis. *)
+Theorem C19_config_meets_spec_partial : forall i,
+  in_domain (to_input (ic_in i)) = true -> T (to_input (ic_in i)) = false -> PC i (runC_i i) = true.
+Proof. exact config_meets_spec. Qed.
+Print Assumptions C19_config_meets_spec_partial.
+
+Theorem C19_config_mode_meets_spec : forall i,
+  is_config (ib_args (ic_in i)) = true -> PC i (runC_i i) = true.
+Proof. exact config_meets_spec_config. Qed.
+Print Assumptions C19_config_mode_meets_spec.
+
+(* The predicate is as strong as the sentence: for a succeeding __config__ it accepts an
+   observation only if stdout is the text itself (and the status 0); for a failing one only
+   a failing run. *)
+Theorem C19_spec_demands_verbatim : forall i o,
+  is_config (ib_args (ic_in i)) = true -> In config_name (ib_defined (ic_in i)) ->
+  strict_status (ib_bodies (ic_in i) config_name 0%N) = 0%N ->
+  PC i o = true ->
+  oc_stdout o = ic_text i /\ o_status (ob_obs (oc_run o)) = 0%N.
+Proof. exact spec_demands_verbatim. Qed.
+Print Assumptions C19_spec_demands_verbatim.
+
+Theorem C19_spec_demands_failure : forall i o,
+  is_config (ib_args (ic_in i)) = true -> In config_name (ib_defined (ic_in i)) ->
+  strict_status (ib_bodies (ic_in i) config_name 0%N) <> 0%N ->
+  PC i o = true -> o_status (ob_obs (oc_run o)) <> 0%N.
+Proof. exact spec_demands_failure. Qed.
+Print Assumptions C19_spec_demands_failure.
+
+(* non-vacuity: a configuration that begins with the YAML document marker, has a `%`, an
+   escaped quote and a doubled backslash in a jqFilter and no final newline; __config__
+   succeeds although a tested command fails in it.  The hypotheses of the theorems above hold;
+   the model prints the text; the predicate rejects the same run with a newline appended,
+   with the backslashes of the text interpreted, and with nothing printed (exit status 2). *)
+Definition ex_text : bytes :=
+  B "---" ++ [10%N] ++ B "jqFilter: " ++ [34%N] ++ B ".a % 2 | test(" ++ [92; 34]%N ++ B "^w" ++ [92; 92]%N ++ B "d+$" ++ [92; 34]%N ++ B ")" ++ [34%N].
+Definition ex_cbodies : name -> N -> body := fun _ _ => [IfCond 2; Plain 0; Return 0].
+Definition ex_cinput : inputC :=
+  mkInputC (mkInputB [B "--config"] [B "__main__"; B "__config__"] ex_cbodies ex_ctxs) ex_text.
+Definition ex_obs_with (st : N) (out : bytes) : obsC :=
+  mkObsC (mkObsB (mkObs [config_entry] st true) [[(0, 0); (1, 0); (2, 0)]%N]) out.
+
+Example C19_config_hyp_met :
+  is_config (ib_args (ic_in ex_cinput)) = true /\
+  In config_name (ib_defined (ic_in ex_cinput)) /\
+  strict_status (ib_bodies (ic_in ex_cinput) config_name 0%N) = 0%N /\
+  runC_i ex_cinput = ex_obs_with 0%N ex_text /\
+  PC ex_cinput (ex_obs_with 0%N ex_text) = true /\
+  PC ex_cinput (ex_obs_with 0%N (ex_text ++ [10%N])) = false /\
+  PC ex_cinput (ex_obs_with 0%N (B "---" ++ [10%N] ++ B "jqFilter: " ++ [34%N] ++ B ".a % 2 | test(" ++ [34%N] ++ B "^w" ++ [92%N] ++ B "d+$" ++ [34%N] ++ B ")" ++ [34%N])) = false /\
+  PC ex_cinput (ex_obs_with 2%N []) = false /\
+  strict_status [Plain 0; Plain 3; Plain 0] <> 0%N.
+Proof.
+  split; [reflexivity|]. split; [right; left; reflexivity|].
+  repeat split; try (vm_compute; reflexivity). vm_compute. discriminate.
 Qed.
